@@ -31,6 +31,9 @@ Clause table (statement of C05 -> deciding TLA+ definition -> event that carries
    other folds"        -> TraceCv!TPred: Ev.refit <= Tol                                  -> Pred.refit (harness refit on the logged ids)
   "does not change when that object's own response is changed"
         -> TraceCv!TPred: Ev.sens in {0} (every object when run.sensall = 1), TEnd: "Sens" in seen -> Pred.sens
+  "leave-one-out ... never saw that object" (row routing as the routine did it)
+        -> TraceCv!TLooSplit: test = <<m>>, CvFolds!SplitIsSound(train, test, n) (Prop); train = all j # m in order, positions 0..n-2 (Impl);
+           TPred: all n models logged                                                        -> LooSplit (hooks loo_train / loo_test)
   "each object index appears in exactly one group"
         -> CvFolds!IsPartition (model: CvPartition!Partition / NoDupEver, CvLabels!LabelFolds; trace: TGroups)   -> Groups.gid
   "training and test parts are disjoint and together exhaust the data"
@@ -38,6 +41,10 @@ Clause table (statement of C05 -> deciding TLA+ definition -> event that carries
   "every object receives a finite prediction in every iteration"
         -> TPred: Ev.finite = 1 /\ Ev.cnt = Ev.passes (= merged workers = fold matrices seen); PassComplete; OrchComplete;
            model: CvPartition!EveryObjectOnce, CvBoot!CounterIsPasses / AverageIsMean     -> Pred.finite/cnt/passes, Create/Join/Merge
+        -> TraceCv!TCounter: the routine's OWN visit counter at the division = tally of the logged test folds (CvBoot!CounterIsPasses on the
+           recording; a lost update on accumulators shared between workers shows here whatever the values are)   -> Counter (hook boot_counter);
+           stress: 120 (quick) / 1500 (thorough) 8-worker x 12-iteration calls on the smallest problems with the workers of a batch held in
+           LOCK-STEP at the last row-copy hook of every group (a legal schedule) so that unsynchronised shared accumulators do collide
   "the reported residuals are prediction minus the matching observed response column"
         -> TResid: Ev.err <= Tol /\ Ev.resp = col % ny /\ Ev.lv = col \\div ny + 1; TResOnly (residual-only call)  -> Resid, ResOnly
   (delivery to the caller: the output objects survive the call and have shape n x scol, whatever they held before)
@@ -55,7 +62,8 @@ W = max(1, int(os.environ.get("VERIF_WORKERS", "8")))
 TECHNIQUE = ("TLC model checking of CvPartition (all draw sequences; id-renaming view for every (n, groups) with n <= 30) / CvLabels / CvOrch / CvBoot (accumulators, "
              "two calls per process, refuted stale variants) + TLC-generated stratified case chains (CvCases over the quantifier, learner domains and input classes "
              "K1..K10 of CvDomain) replayed into the real CV drivers + TLC trace validation of fold matrices, split ids, orchestration order, refit errors, "
-             "own-response sensitivity of every object, residual columns and output objects recorded from the real CV drivers (hook H5)")
+             "own-response sensitivity of every object, residual columns, output objects, LeaveOneOut row routing and the bootstrap's own visit counter recorded "
+             "from the real CV drivers (hook H5), incl. a lock-step 8-worker stress block for lost updates on shared accumulators")
 LEVEL_TEXT = ("The fold generator is model-checked with the random draw left nondeterministic, so every RNG stream is covered for all n <= 6 (quick) / 8 (thorough) and group "
               "counts (and, under the id-renaming view, for every n <= 30); label-driven folds for all label vectors; orchestration for all (items, threads) and "
               "completion orders; the bootstrap accumulators over batches, completion orders and two calls in one process. The real drivers are then run for "
@@ -63,7 +71,8 @@ LEVEL_TEXT = ("The fold generator is model-checked with the random draw left non
               "iterations 1..12, group counts 2..n, more responses than predictors, wide training sets, offsets/magnitudes/ties, user label alphabets, several "
               "runs in one process into already sized outputs); TLC checks on the recorded ids that every fold matrix is a partition, every split disjoint and "
               "exhaustive, every object predicted once per pass, nothing merged before its join, and that the logged refit error / own-response sensitivity / "
-              "residual-column errors are within bounds and the caller's output objects survive.")
+              "residual-column errors are within bounds, the caller's output objects survive, LeaveOneOut routes every row but the left-out one into the "
+              "training part, and the bootstrap's own visit counter equals the number of logged passes that tested the object.")
 LEVEL_NOTE = ("Trusts TLC, hook H5 placement, and the harness's projection (refit through the public API on the logged training ids, double-precision comparison "
               "quantised to 1e-12 units relative to max(|value|, 1), or to 1e-6 for the 1e-6-magnitude class - never looser). Model checking is exhaustive only "
               "within the small bounds (the n <= 30 run relies on the invariance of the machine under renaming object ids); the conformance runs are stratified + "
@@ -71,7 +80,10 @@ LEVEL_NOTE = ("Trusts TLC, hook H5 placement, and the harness's projection (refi
               "only, through the helpers); KFoldCV+LDA (the routine never creates the LDA workers it joins); K9 missing-value codes (the statement does not mention "
               "missing values; a response equal to 99999999 is C07's/C03's business); y-autoscaling of a constant response (C03's business); MLR with a constant column (rank-deficient with the intercept: outside "
               "MLR's own domain, C07); LDA with fewer than 3 training members per class (C08's domain); bootstrap own-response test with more than one thread (two "
-              "runs race on the shared generator word - property C06). Lost updates in shared accumulators need a collision and are C06's business.")
+              "runs race on the shared generator word - property C06). A lost update on accumulators shared between bootstrap workers is not observable without a real collision (absent one the "
+              "counter equals the passes): the lock-step stress block provokes collisions (measured on the two seeded changes of that kind: 5-18 % and 22-26 % of "
+              "the calls show counter != passes on a 16-core machine at load 50-80, i.e. a miss probability < 1 % for the 120 calls of the quick tier); it is "
+              "sampled, not exhaustive; the race itself is C06's business (ThreadSanitizer block there).")
 
 # KFoldCV frees the caller's predicted_y when it is already sized for another shape (fixes/C05-kfoldcv-sized-output.diff).  The statement of C05 is
 # about the predictions the routines DELIVER ("every object receives a finite prediction"): a freed output delivers none, so it is reported as a
@@ -104,6 +116,13 @@ def _sig(ev, block):
                 "the caller's pointer dangles (run %s of the process, %s)") % (
                    {"kfold": "KFoldCV", "loo": "LeaveOneOut", "boot": "BootstrapRandomGroupsCV"}.get(scheme, scheme), which, run.get("hist"),
                    {k: run.get(k) for k in ("algo", "n", "ny", "nlv", "nth")})
+    if e == "LooSplit":
+        return "CV:loo:row-routing", ("LeaveOneOut: the rows routed into the training / test part of model %s are not 'every object but %s' / 'object %s' "
+                                      "(train %s, test %s; %s)") % (ev.get("m"), ev.get("m"), ev.get("m"), ev.get("train"), ev.get("test"), {k: run.get(k) for k in ("algo", "n", "nth")})
+    if e == "Counter":
+        return "CV:boot:visit-counter", ("BootstrapRandomGroupsCV divides the summed predictions of object %s by its visit counter = %s, but the object sat in a test fold in a different "
+                                         "number of the logged passes (an update of the counter was lost or added: accumulators shared between workers?) (%s)") % (
+                                             ev.get("i"), ev.get("cnt"), {k: run.get(k) for k in ("algo", "n", "groups", "iters", "nth", "lockstep")})
     if e == "Groups":
         return "CV:%s:partition" % scheme, "fold matrix is not a partition of 0..n-1: %s" % ev
     if e == "Split":
@@ -127,6 +146,9 @@ def _sig(ev, block):
                 ev.get("i"), ev.get("refit"), run.get("hist", 0))
         if ev.get("sens") == -1 and run.get("sensall") == 1:
             raise InfraError("driver did not measure the own-response sensitivity of object %s in an every-object run: %s" % (ev.get("i"), run))
+        nl = sum(1 for x in block if x.get("e") == "LooSplit")
+        if scheme == "loo" and nl not in (0, run.get("n")):
+            return "CV:loo:row-routing", "LeaveOneOut routed rows for %d of %d models only (%s)" % (nl, run.get("n"), {k: run.get(k) for k in ("algo", "n", "nth")})
         return "CV:%s:pred-order:%s" % (scheme, algo), "prediction phase reached with incomplete orchestration/passes: %s" % ev
     if e == "Resid":
         cls = "ny%s:nlv%s" % (">1" if run.get("ny", 1) > 1 else "1", ">1" if run.get("nlv", 1) > 1 else "1")
@@ -263,6 +285,7 @@ def run_check(ctx):
         "group count 1 is exercised through the helper functions only (its training set is empty); KFoldCV with LDA is excluded (the routine does not support it)",
         "hook H5 reports fold matrices when complete, row ids at the copy, join after pthread_join returns, merge before the worker's output is added",
         "a freed output object is recognised through the sanitizer's shadow memory (san build)",
+        "lost updates on accumulators shared between workers are sampled by a lock-step stress block (120 / 1500 calls, 8 workers, 12 iterations), not excluded exhaustively",
     ]
     mc = _mc_start(ctx)
     lib = build.build_lib("san")
@@ -299,6 +322,10 @@ def run_check(ctx):
                 cf = os.path.join(rd, "cases%d_%d.txt" % (rep, i))
                 cid = _write_cases(cf, part, cid, index)
                 jobs.append([os.path.join(rd, "g%d_%d.ndjson" % (rep, i)), "cases", ctx.seed + 7919 * rep, 1000000, cf])
+        # lock-step stress: repeated 8-worker bootstrap calls on the smallest problems (lost updates on shared accumulators)
+        nstress = 120 if q else 1500
+        for i in range(2 if q else 6):
+            jobs.append([os.path.join(rd, "s%d.ndjson" % i), "stress", ctx.seed + 31 * i, nstress // (2 if q else 6)])
         res = hrun.run_many(exe, jobs, timeout=2400, workers=W)
         events = []
         for j, h in zip(jobs, res):
@@ -334,6 +361,8 @@ def run_check(ctx):
                         ctx.cls(tag)
                 else:
                     legacy_runs.append(run)
+                    if run.get("lockstep"):
+                        ctx.cls("K6:boot:lock-step-stress(8-workers,12-iterations)")
             elif scheme == "helpers":
                 ctx.cls("H:helpers-all-(n,groups)")
                 if run.get("groups") == 1:
@@ -394,6 +423,20 @@ def run_check(ctx):
             trace.check_trace(ctx, "TraceCv", "Trace_Cv.cfg", "Trace_Cv_prop.cfg", dead_ev, on_reject, drop="block", max_rounds=14, label="trace_cv_dead_runs", xmx="4g", timeout=900)
         trace.check_trace(ctx, "TraceCv", "Trace_Cv.cfg", "Trace_Cv_prop.cfg", main_ev, on_reject, drop="block", max_rounds=40, label="trace_cv", xmx="8g", timeout=1800)
         ctx.traces(nblocks)
+        # vacuity of the hook-bound events, AFTER the verdicts: a tree whose hooks stopped firing has still been judged on everything else
+        alive = [b for b in blocks if not dead(b) and _block_info(b).get("e") == "Run"]
+        loo_b = [b for b in alive if _block_info(b).get("scheme") == "loo"]
+        boot_b = [b for b in alive if _block_info(b).get("scheme") == "boot"]
+        no_loo = [b for b in loo_b if sum(1 for e in b if e["e"] == "LooSplit") != _block_info(b)["n"]]
+        no_cnt = [b for b in boot_b if sum(1 for e in b if e["e"] == "Counter") != _block_info(b)["n"]]
+        if not loo_b or not boot_b:
+            raise InfraError("no LeaveOneOut / bootstrap block survived")
+        if no_loo and not ctx.violations:
+            raise InfraError("hook loo_train / loo_test did not fire for every model in %d of %d LeaveOneOut runs (hooks removed?): %s" % (len(no_loo), len(loo_b), _block_info(no_loo[0])))
+        if no_cnt and not ctx.violations:
+            raise InfraError("hook boot_counter did not fire for every object in %d of %d bootstrap runs (hooks removed?): %s" % (len(no_cnt), len(boot_b), _block_info(no_cnt[0])))
+        if not any(_block_info(b).get("lockstep") for b in boot_b):
+            raise InfraError("no lock-step stress block recorded")
         _selftests(ctx, blocks)
         _mc_finish(ctx, mc)
     finally:
@@ -428,20 +471,37 @@ def _selftests(ctx, blocks):
                 e["train"][0], e["test"][0] = e["test"][0], e["train"][0]
                 return True
         return False
+    tests = []
+
+    def T(*a):
+        tests.append(a)
     boot = find(lambda r, b: r.get("scheme") == "boot" and any(e["e"] == "Split" for e in b))
-    trace.binding_selftest(ctx, "TraceCv", "Trace_Cv_prop.cfg", boot, swap, "binding_split")
+    T("TraceCv", "Trace_Cv_prop.cfg", boot, swap, "binding_split")
     anycv = find(lambda r, b: r.get("scheme") in SC and any(e["e"] == "ResOnly" for e in b))
-    trace.binding_selftest(ctx, "TraceCv", "Trace_Cv_prop.cfg", anycv, setter("Out", "pred_freed", 1), "binding_out")
-    trace.binding_selftest(ctx, "TraceCv", "Trace_Cv_prop.cfg", anycv, setter("ResOnly", "err", 5000), "binding_resonly")
-    trace.binding_selftest(ctx, "TraceCv", "Trace_Cv_prop.cfg", anycv, lambda evs: bool([evs.remove(e) for e in list(evs) if e["e"] == "ResOnly"]), "binding_resonly_missing")
-    trace.binding_selftest(ctx, "TraceCv", "Trace_Cv_prop.cfg", anycv, lambda evs: bool([evs.remove(e) for e in list(evs) if e["e"] == "Out"]), "binding_out_missing")
+    T("TraceCv", "Trace_Cv_prop.cfg", anycv, setter("Out", "pred_freed", 1), "binding_out")
+    T("TraceCv", "Trace_Cv_prop.cfg", anycv, setter("ResOnly", "err", 5000), "binding_resonly")
+    T("TraceCv", "Trace_Cv_prop.cfg", anycv, lambda evs: bool([evs.remove(e) for e in list(evs) if e["e"] == "ResOnly"]), "binding_resonly_missing")
+    T("TraceCv", "Trace_Cv_prop.cfg", anycv, lambda evs: bool([evs.remove(e) for e in list(evs) if e["e"] == "Out"]), "binding_out_missing")
     sall = find(lambda r, b: r.get("scheme") in SC and r.get("sensall") == 1)
-    trace.binding_selftest(ctx, "TraceCv", "Trace_Cv_prop.cfg", sall, setter("Pred", "sens", 7, lambda e: e["i"] == info(sall)["n"] - 1), "binding_sens_last_object")
-    trace.binding_selftest(ctx, "TraceCv", "Trace_Cv_prop.cfg", sall, setter("Pred", "sens", -1, lambda e: e["i"] == 2), "binding_sens_unmeasured")
-    trace.binding_selftest(ctx, "TraceCv", "Trace_Cv_prop.cfg", anycv, setter("Run", "n", 31), "binding_quantifier")
+    T("TraceCv", "Trace_Cv_prop.cfg", sall, setter("Pred", "sens", 7, lambda e: e["i"] == info(sall)["n"] - 1), "binding_sens_last_object")
+    T("TraceCv", "Trace_Cv_prop.cfg", sall, setter("Pred", "sens", -1, lambda e: e["i"] == 2), "binding_sens_unmeasured")
+    T("TraceCv", "Trace_Cv_prop.cfg", anycv, setter("Run", "n", 31), "binding_quantifier")
+    loo = find(lambda r, b: r.get("scheme") == "loo" and r.get("nth", 1) > 1 and any(e["e"] == "LooSplit" for e in b))
+    T("TraceCv", "Trace_Cv_prop.cfg", loo, setter("LooSplit", "train", lambda t: [2] + t[1:], lambda e: e["m"] == 2), "binding_loo_leak")       # model 2 trains on object 2
+    T("TraceCv", "Trace_Cv_prop.cfg", loo, setter("LooSplit", "train", lambda t: t[:-1], lambda e: e["m"] == 0), "binding_loo_row_lost")
+    T("TraceCv", "Trace_Cv_prop.cfg", loo, setter("LooSplit", "test", lambda t: [t[0] + 1], lambda e: e["m"] == 1), "binding_loo_test_row")
+    T("TraceCv", "Trace_Cv.cfg", loo, setter("LooSplit", "train", lambda t: [t[1], t[0]] + t[2:], lambda e: e["m"] == 3), "binding_loo_order_impl")
+    T("TraceCv", "Trace_Cv_prop.cfg", loo, lambda evs: bool([evs.remove(e) for e in list(evs) if e["e"] == "LooSplit" and e["m"] == 4]), "binding_loo_model_missing")
+    bootb = find(lambda r, b: r.get("scheme") == "boot" and r.get("nth", 1) > 1 and any(e["e"] == "Counter" for e in b))
+    T("TraceCv", "Trace_Cv_prop.cfg", bootb, setter("Counter", "cnt", lambda c: c - 1, lambda e: e["i"] == 3), "binding_counter_lost_update")
+    T("TraceCv", "Trace_Cv_prop.cfg", bootb, setter("Counter", "cnt", lambda c: c + 1, lambda e: e["i"] == 0), "binding_counter_extra")
+    T("TraceCv", "Trace_Cv.cfg", bootb, setter("Counter", "iters", lambda c: c + 1), "binding_counter_iters_impl")
     hist = find(lambda r, b: r.get("scheme") in SC and r.get("hist", 0) >= 1)
-    trace.binding_selftest(ctx, "TraceCv", "Trace_Cv_prop.cfg", hist, setter("Pred", "refit", 1001), "binding_history_refit")
-    trace.binding_selftest(ctx, "TraceCv", "Trace_Cv_prop.cfg", hist, setter("End", "shape", 0), "binding_history_shape")
+    T("TraceCv", "Trace_Cv_prop.cfg", hist, setter("Pred", "refit", 1001), "binding_history_refit")
+    T("TraceCv", "Trace_Cv_prop.cfg", hist, setter("End", "shape", 0), "binding_history_shape")
+    with ThreadPoolExecutor(max(1, min(W, 6))) as ex:
+        list(ex.map(lambda a: trace.binding_selftest(ctx, *a), tests))
+    ctx.steps["binding_selftests"] = len(tests)
 
 
 def run(ctx):
